@@ -18,7 +18,7 @@
 (*     pkg   = value returned by the package, first query                  *)
 (*             (cache methods: exporter.py:384-404; ItemSpace __call__:    *)
 (*              exporter.py:406-432; formulas rewritten by                 *)
-(*              transformer.py:137-309; references: exporter.py:204-272)   *)
+(*              transformer.py:137-316; references: exporter.py:204-272)   *)
 (*     pkg2  = the same query again (served by the package's cache)        *)
 (*     pkgf / pkgf2 = the same from the package exported from the same     *)
 (*             program with ALL cached flags flipped                       *)
@@ -96,11 +96,13 @@ PackageStable(v1, v2)         == v1 = v2
 CachedUncachedAgree(v, vf)    == v = vf
 
 -----------------------------------------------------------------------------
-(* KNOWN FINDINGS (genuine defects of modelx/export/transformer.py, see    *)
-(* harness/export_templates.py).  hdr.syn lists <<path, cells, feature>> for *)
-(* every DEFINED cells whose formula TEXT has the syntactic feature of one  *)
-(* of them.  The predicates below describe exactly the failing situations;  *)
-(* any other disagreement keeps its normal label.                           *)
+(* REGRESSION TRIPWIRES for two genuine defects of                           *)
+(* modelx/export/transformer.py that this check found (see                   *)
+(* harness/export_templates.py) and that were repaired in /repo (0ecda46,    *)
+(* 5b8fa93).  hdr.syn lists <<path, cells, feature>> for every DEFINED cells  *)
+(* whose formula TEXT has the syntactic feature of one of them.  The         *)
+(* predicates below describe exactly the two failing situations; any other   *)
+(* disagreement keeps its normal label.                                      *)
 
 Syn == Tr.hdr.syn
 \* the formula text of the cells that element m evaluates has feature ft
@@ -127,13 +129,15 @@ MayCallStar(DD, front, seen) ==
 \* KF:C15.comprehension-after-nested-scope -- the package raises NameError (the oracle says
 \* otherwise) and the element evaluates, directly or through its callees, a formula in which a
 \* global name stands inside a list/set/dict comprehension that follows a nested function or
-\* lambda (Python >= 3.12: transformer.py:188-193 steps back to the wrong symbol table)
+\* lambda (Python >= 3.12: should_replace, transformer.py:190-196, must look the name up in
+\* the symbol table of the ENCLOSING scope; it used to step back to the previous table)
 KFCompScope(DD, n, v, exp) ==
     /\ v # exp /\ v = ErrName
     /\ \E m \in MayCallStar(DD, {n}, {n}) : HasSyn(DD, m, "compscope")
 
 \* KF:C15.parenthesised-global-name -- the package does not compile (SyntaxError) and some
-\* formula writes a global name in parentheses (transformer.py:277-289 emits `self.(name)`)
+\* formula writes a global name in parentheses (leave_Name, transformer.py:280-296, used to
+\* emit `self.(name)`)
 KFParen(exported, imported, errkind) ==
     /\ exported /\ ~imported /\ errkind = "SyntaxError"
     /\ \E i \in 1..Len(Syn) : Syn[i][3] = "paren"
